@@ -116,7 +116,15 @@ def resumable():
         'configs': {'root': {'medium': 'json', 'tasks': ['A', 'R'], 'values': {}}}, 'root': 'root', 'variants': {'v0': []}}
 
 
-WORLDS = {'dotted': dotted, 'twonsdiff': twons_diff, 'empties': empties, 'resumable': resumable, 'chain3': chain3, 'diamond': diamond, 'types': types_world, 'samehash': two_parameterless, 'usesns': uses_ns, 'twofiles': twofiles, 'partsnonmain': parts_nonmain}
+def topns():
+    """the migrated Config is itself given a namespace"""
+    d = chain3()
+    d['name'] = 'topns'
+    d['_top_namespace'] = 'ns'
+    return d
+
+
+WORLDS = {'topns': topns, 'dotted': dotted, 'twonsdiff': twons_diff, 'empties': empties, 'resumable': resumable, 'chain3': chain3, 'diamond': diamond, 'types': types_world, 'samehash': two_parameterless, 'usesns': uses_ns, 'twofiles': twofiles, 'partsnonmain': parts_nonmain}
 
 
 def listing(root):
@@ -308,7 +316,7 @@ def _job(items):
 def run(tier, seed):
     items = []
     seqs = [s for n in (1, 2, 3) for s in itertools.product((True, False), repeat=n)]
-    for wname in (['chain3', 'dotted', 'samehash', 'usesns', 'types', 'twofiles', 'twonsdiff', 'partsnonmain', 'empties', 'resumable'] if tier == 'quick' else list(WORLDS)):
+    for wname in (['chain3', 'topns', 'dotted', 'samehash', 'usesns', 'types', 'twofiles', 'twonsdiff', 'partsnonmain', 'empties', 'resumable'] if tier == 'quick' else list(WORLDS)):
         desc = WORLDS[wname]()
         n = len(refmodel.Model(worlds.apply_variant(desc, 'v0'), 'x').tasks)
         subsets = list(itertools.product((True, False), repeat=n))
